@@ -39,6 +39,10 @@ func c12Decls() []c12Decl {
 		{ID: "lit-file", IsLit: true, Lit: "o1", Rel: "o1"},
 		{ID: "lit-dir", IsLit: true, Lit: "dir", Rel: "dir"},
 		{ID: "lit-nested", IsLit: true, Lit: "dir/o2", Rel: "dir/o2"},
+		{ID: "lit-bracket", IsLit: true, Lit: "o[1].txt", Rel: "o[1].txt"}, // a literal name with glob-like characters but no '*'
+		{ID: "lit-question", IsLit: true, Lit: "ready?.md", Rel: "ready?.md"},
+		{ID: "lit-link-into-dir", IsLit: true, Lit: "lnk", Rel: "lnk"},   // a symbolic link pointing into the output "dir"
+		{ID: "lit-link-dangling", IsLit: true, Lit: "dlnk", Rel: "dlnk"}, // a dangling symbolic link
 		{ID: "lit-file-prefix-sibling", IsLit: true, Lit: "o1.log", Rel: "o1.log"},
 		{ID: "lit-dir-prefix-sibling", IsLit: true, Lit: "dir2.tar", Rel: "dir2.tar"},
 		{ID: "glob-top", IsLit: true, Lit: "*.gen", Glob: "*.gen"},
@@ -62,7 +66,7 @@ func c12Decls() []c12Decl {
 }
 
 // the designatable paths of the project tree (bit i of the tree mask = present)
-var c12Paths = []string{"o1", "dir/o2", "a.gen", "b.gen", "gen/x.o", "o3", "sub/o4", "sub/o5", "o1.log", "dir2.tar", ".cache/y.o", "cache/y.o"}
+var c12Paths = []string{"o1", "dir/o2", "a.gen", "b.gen", "gen/x.o", "o3", "sub/o4", "sub/o5", "o1.log", "dir2.tar", ".cache/y.o", "cache/y.o", "o[1].txt", "o1.txt", "ready?.md", "readyX.md", "@lnk", "@dlnk"}
 
 type c12Case struct {
 	Decls     []string `json:"decls"` // IDs
@@ -189,7 +193,16 @@ func c12Run(root string, c c12Case) (obs []c12Obs, outcome string) {
 	t.File(projRel+"/.spok/.gitignore", "*\n")
 	for i, p := range c12Paths {
 		if c.Mask&(1<<i) != 0 {
-			t.File(projRel+"/"+p, "generated "+p+"\n")
+			switch p {
+			case "@lnk":
+				os.Symlink(filepath.Join(proj, "dir", "o2"), filepath.Join(proj, "lnk"))
+				os.Lchown(filepath.Join(proj, "lnk"), 65534, 65534)
+			case "@dlnk":
+				os.Symlink(filepath.Join(proj, "nowhere"), filepath.Join(proj, "dlnk"))
+				os.Lchown(filepath.Join(proj, "dlnk"), 65534, 65534)
+			default:
+				t.File(projRel+"/"+p, "generated "+p+"\n")
+			}
 		}
 	}
 	vlog := filepath.Join(ctl, "vlog")
